@@ -80,12 +80,26 @@ prop(
           "multiset of reconstructed output rows over all shards equals the input multiset (duplicates included) and every row is a "
           "consistent replicated sharing. faults (malicious): pass 1 inventories every MPC chunk of the shuffle; each fault run alters one "
           "chunk of one sender, or one bit of one input share held by one helper; table messages (transfer_x_y, transfer_c) and held rows "
-          "must make an honest helper fail; other traffic must abort or leave the multiset unchanged. distinct = (type, shards, mode, "
-          "assignment, size) / (type, step family, sender, shards); non-trivial = outcome classified"),
-    assumptions=["only MPC (helper-to-helper) traffic is tampered with", "MAC tag forgery probability 2^-32 per run is ignored"],
+          "must make an honest helper fail; other traffic must abort or leave the multiset unchanged. adaptive (malicious): row types x "
+          "shards {1,2,3} x row counts {1,2,3,5,10,33,100,300 (+700, 2000 thorough)} x (attacker, table) in {(H1,X2), (H2,Y1), (H2,C1), (H3,C2)}: "
+          "an honest reference run with the same world seed yields the attacker's own two shares of every MAC key (its RevealMACKey "
+          "messages); in the attack run the third share is only taken from RevealMACKey messages already delivered to the attacker (any "
+          "shard) at the moment a chunk of its table is handed to the receiver (the in-memory transport runs the interceptor when the "
+          "receiver pulls the chunk; a real sender could hold the chunk back until then; pulling the reveal messages earlier than the "
+          "attacker's honest code does is not modelled); then delta is added to one 32-bit word of one row and k*delta (GF(2^32)) to its tag; "
+          "applied + all honest helpers return rows => violation (key not yet known => counted). large table (thorough, one process): "
+          "BA32 rows on one shard, 1,100,003 rows semi-honest and 2^20+7 rows malicious (both > 2^20), paused-clock executor (quiescence decides "
+          "'never finishes'), multiset oracle. distinct = (type, shards, mode, "
+          "assignment, size) / (type, step family, sender, shards) / (type, shards, size, attacker/table, outcome); non-trivial = outcome classified"),
+    assumptions=["only MPC (helper-to-helper) traffic is tampered with", "MAC tag forgery probability 2^-32 per run is ignored",
+                 "the adaptive attacker follows the protocol's own schedule: it alters a message when it is delivered and never asks for a message earlier than the honest code"],
     shards={"quick": 16, "thorough": 16},
-    min_evaluations={"quick": 120, "thorough": 1500},
-    must_see=[("multiset_equal", 60), ("fault_abort", 20), ("shuffle_step_families_faulted", 7)],
+    min_evaluations={"quick": 400, "thorough": 3000},
+    must_see=[("multiset_equal", 60), ("fault_abort", 20), ("shuffle_step_families_faulted", 7),
+              ("adaptive_attack_runs", 300), ("adaptive_table_chunks_observed", 1000), ("adaptive_classes", 40),
+              ("large_table_skipped_in_quick_tier", 1, "quick"),
+              ("large_table_multiset_equal_sh", 1, "thorough"), ("large_table_multiset_equal_mal", 1, "thorough"),
+              ("large_table_rows_checked", 1100003 + (1 << 20) + 7, "thorough")],
     watchdog_s={"quick": 1500, "thorough": 10800},
 )
 
@@ -650,7 +664,7 @@ TECHNIQUE = {
     "C02": "runtime fault injection: one sender's chunk altered through the stream interceptor on a replayed deterministic execution; outcome oracle (abort / honest shares determine reference result)",
     "C03": "runtime fault enumeration on recorded and transmitted multiplication bits against a reference three-party multiplication model; real Batch::validate on three helpers",
     "C04": "runtime additive-fault injection on MAC-protected protocols (incl. coordinated cross-lane attack, every malicious opening flavour, adaptive opened-key and rushing deviating-party attacks); binomial allowance for Fp31",
-    "C05": "runtime multiset / share-consistency oracle on sharded shuffles plus fault injection on tables and held rows",
+    "C05": "runtime multiset / share-consistency oracle on sharded shuffles (incl. one table of more than 2^20 rows) plus fault injection on tables and held rows and an adaptive key-aware tag-forging helper",
     "C06": "runtime equality/inequality checks on three PRSS endpoints plus offline checker over the hook-H5 log of every PRSS draw (no reuse, no collision)",
     "C07": "runtime differential monitoring of every circuit against plaintext reference functions (exhaustive for small widths, 256 lanes per run)",
     "C08": "runtime exhaustive axiom checking, independent big-integer reference, run-time irreducibility/primality certificates of the exported moduli",
